@@ -21,13 +21,18 @@ import (
 	"go/ast"
 	"go/token"
 	"hash/fnv"
+	"os"
 	"strings"
 )
 
 type decTr struct {
-	holes  []string
-	seen   map[string]bool
-	errSrc string
+	holes []string
+	seen  map[string]bool
+	// srcs: for every variable assigned on the current path, what it was last assigned from (conditions on a
+	// variable at different program points are different conditions)
+	srcs map[string]string
+	// multi: the variables assigned more than once in the function (only those need a source)
+	multi map[string]bool
 	// quiet: only returns, warnings and other calls matter; assignments are no effects and an `if` whose body
 	// neither returns nor calls anything is skipped (used for long functions whose bookkeeping is modelled elsewhere)
 	quiet bool
@@ -66,9 +71,6 @@ func hasReturnOrCall(stmts []ast.Stmt) bool {
 
 func (t *decTr) hole(key string) string {
 	key = strings.Join(strings.Fields(key), " ")
-	if t.errSrc != "" && (key == "err != nil" || key == "err == nil") {
-		key += " [err from " + t.errSrc + "]"
-	}
 	if !t.seen[key] {
 		t.seen[key] = true
 		t.holes = append(t.holes, key)
@@ -97,7 +99,92 @@ func (t *decTr) cond(e ast.Expr) string {
 			return "(" + t.cond(x.X) + " || " + t.cond(x.Y) + ")"
 		}
 	}
-	return t.hole(exprKey2(e))
+	return t.hole(exprKey2(e) + t.srcSuffix(e))
+}
+
+// srcSuffix names, for every variable of the expression that was assigned on the current path, where its value
+// comes from
+func (t *decTr) srcSuffix(e ast.Node) string {
+	var out []string
+	seen := map[string]bool{}
+	skip := map[*ast.Ident]bool{}
+	ast.Inspect(e, func(n ast.Node) bool {
+		switch x := n.(type) {
+		case *ast.SelectorExpr:
+			skip[x.Sel] = true
+		case *ast.KeyValueExpr:
+			if id, ok := x.Key.(*ast.Ident); ok {
+				skip[id] = true
+			}
+		case *ast.Ident:
+			if !skip[x] && !seen[x.Name] {
+				seen[x.Name] = true
+				if src, ok := t.srcs[x.Name]; ok && t.multi[x.Name] {
+					out = append(out, " ["+x.Name+" from "+src+"]")
+				}
+			}
+		}
+		return true
+	})
+	return strings.Join(out, "")
+}
+
+// multiAssigned: the variables with more than one assignment in the statements
+func multiAssigned(stmts []ast.Stmt) map[string]bool {
+	n := map[string]int{}
+	for _, s := range stmts {
+		ast.Inspect(s, func(x ast.Node) bool {
+			if as, ok := x.(*ast.AssignStmt); ok {
+				for _, l := range as.Lhs {
+					if id, ok := l.(*ast.Ident); ok {
+						n[id.Name]++
+					}
+				}
+			}
+			return true
+		})
+	}
+	out := map[string]bool{}
+	for k, c := range n {
+		if c > 1 {
+			out[k] = true
+		}
+	}
+	return out
+}
+
+func withSrc(srcs map[string]string, as *ast.AssignStmt) map[string]string {
+	if len(as.Rhs) != 1 {
+		return srcs
+	}
+	src := ""
+	if c, ok := as.Rhs[0].(*ast.CallExpr); ok {
+		if _, isLit := c.Fun.(*ast.FuncLit); isLit {
+			src = "func()"
+		} else {
+			src = exprKey2(c.Fun) + "()"
+		}
+	} else {
+		src = strings.Join(strings.Fields(exprKey2(as.Rhs[0])), " ")
+		if len(src) > 40 {
+			src = src[:40] + "…"
+		}
+	}
+	out := map[string]string{}
+	for k, v := range srcs {
+		out[k] = v
+	}
+	for _, l := range as.Lhs {
+		if id, ok := l.(*ast.Ident); ok && id.Name != "_" {
+			s := src
+			// a second assignment from a source with the same text is another value
+			for strings.TrimRight(out[id.Name], "'") == src && len(out[id.Name]) >= len(s) {
+				s += "'"
+			}
+			out[id.Name] = s
+		}
+	}
+	return out
 }
 
 func effectOf(s ast.Stmt) string {
@@ -149,8 +236,17 @@ func shortLabel(l string) string {
 	}
 	h := fnv.New32a()
 	_, _ = h.Write([]byte(l))
-	return fmt.Sprintf("%s …#%08x", l[:70], h.Sum32())
+	short := fmt.Sprintf("%s …#%08x", l[:70], h.Sum32())
+	if _, ok := longLabels[short]; !ok {
+		longLabelOrder = append(longLabelOrder, short)
+	}
+	longLabels[short] = l
+	return short
 }
+
+// the shortened labels of the function being translated, with their full text (for the reader of the generated file)
+var longLabels = map[string]string{}
+var longLabelOrder []string
 
 func returnLabel(r *ast.ReturnStmt) string {
 	if len(r.Results) == 0 {
@@ -193,12 +289,12 @@ func endsInReturn(stmts []ast.Stmt) bool {
 
 // dec translates stmts (followed by `rest` when they fall through) with the effects collected so far
 func (t *decTr) dec(stmts []ast.Stmt, effects []string, end string) string {
-	return t.decE(stmts, effects, end, "")
+	return t.decE(stmts, effects, end, map[string]string{})
 }
 
-// decE: errSrc names the statement that last assigned `err` on this path (conditions on `err` at different
+// decE: srcs names, per variable, the statement that last assigned it on this path (conditions on a variable at different
 // program points are different conditions)
-func (t *decTr) decE(stmts []ast.Stmt, effects []string, end string, errSrc string) string {
+func (t *decTr) decE(stmts []ast.Stmt, effects []string, end string, srcs map[string]string) string {
 	if len(stmts) == 0 {
 		if end == "" {
 			failf(nil, "a path falls off the end of the function")
@@ -210,12 +306,12 @@ func (t *decTr) decE(stmts []ast.Stmt, effects []string, end string, errSrc stri
 		return leanStr(shortLabel(strings.Join(append(append([]string{}, effects...), returnLabel(x)), "; ")))
 	case *ast.IfStmt:
 		if t.quiet && x.Else == nil && !hasReturnOrCall(x.Body.List) {
-			return t.decE(stmts[1:], effects, end, errSrc)
+			return t.decE(stmts[1:], effects, end, srcs)
 		}
 		c := ""
-		t.errSrc = errSrc
+		t.srcs = srcs
 		if x.Init != nil {
-			c = t.hole(exprKey2(x.Init) + "; " + exprKey2(x.Cond))
+			c = t.hole(exprKey2(x.Init) + "; " + exprKey2(x.Cond) + t.srcSuffix(x.Init))
 		} else {
 			c = t.cond(x.Cond)
 		}
@@ -232,7 +328,7 @@ func (t *decTr) decE(stmts []ast.Stmt, effects []string, end string, errSrc stri
 		} else {
 			elseStmts = rest
 		}
-		return "(if " + c + " then " + t.decE(thenStmts, effects, end, errSrc) + " else " + t.decE(elseStmts, effects, end, errSrc) + ")"
+		return "(if " + c + " then " + t.decE(thenStmts, effects, end, srcs) + " else " + t.decE(elseStmts, effects, end, srcs) + ")"
 	case *ast.RangeStmt:
 		// the loop's exit: the one `if c { … return … }` of its body (other statements of the body are bookkeeping)
 		var exit *ast.IfStmt
@@ -258,32 +354,31 @@ func (t *decTr) decE(stmts []ast.Stmt, effects []string, end string, errSrc stri
 					}
 				}
 			}
-			c := t.hole("some " + exprKey2(x.Value) + " of " + exprKey2(x.X) + ": " + exprKey2(exit.Cond) + loopErr)
-			return "(if " + c + " then " + t.decE(exit.Body.List, effects, end, errSrc) + " else " + t.decE(stmts[1:], effects, end, errSrc) + ")"
+			t.srcs = srcs
+			c := t.hole("some " + exprKey2(x.Value) + " of " + exprKey2(x.X) + ": " + exprKey2(exit.Cond) + loopErr + t.srcSuffix(x.X))
+			return "(if " + c + " then " + t.decE(exit.Body.List, effects, end, srcs) + " else " + t.decE(stmts[1:], effects, end, srcs) + ")"
 		}
 		if exits > 1 {
 			failf(x, "a loop with several exits")
 		}
 		// a loop without an exit: an effect
 		if t.quiet {
-			return t.decE(stmts[1:], effects, end, errSrc)
+			return t.decE(stmts[1:], effects, end, srcs)
 		}
-		return t.decE(stmts[1:], append(append([]string{}, effects...), "for "+exprKey2(x.X)), end, errSrc)
+		return t.decE(stmts[1:], append(append([]string{}, effects...), "for "+exprKey2(x.X)), end, srcs)
 	case *ast.ForStmt:
 		if t.quiet {
-			return t.decE(stmts[1:], effects, end, errSrc)
+			return t.decE(stmts[1:], effects, end, srcs)
 		}
-		return t.decE(stmts[1:], append(append([]string{}, effects...), "for"), end, errSrc)
+		return t.decE(stmts[1:], append(append([]string{}, effects...), "for"), end, srcs)
 	default:
 		if as, ok := stmts[0].(*ast.AssignStmt); ok {
-			for _, l := range as.Lhs {
-				if id, ok := l.(*ast.Ident); ok && id.Name == "err" && len(as.Rhs) == 1 {
-					if c, ok := as.Rhs[0].(*ast.CallExpr); ok {
-						errSrc = exprKey2(c.Fun) + "()"
-					} else {
-						errSrc = exprKey2(as.Rhs[0])
-					}
-				}
+			srcs = withSrc(srcs, as)
+		}
+		if es, ok := stmts[0].(*ast.ExprStmt); ok {
+			if c, ok := es.X.(*ast.CallExpr); ok && exprKey2(c.Fun) == "os.Exit" {
+				// the process ends here
+				return leanStr(shortLabel(strings.Join(append(append([]string{}, effects...), "os.Exit()"), "; ")))
 			}
 		}
 		eff := effectOf(stmts[0])
@@ -293,7 +388,7 @@ func (t *decTr) decE(stmts []ast.Stmt, effects []string, end string, errSrc stri
 		if eff != "" {
 			effects = append(append([]string{}, effects...), eff)
 		}
-		return t.decE(stmts[1:], effects, end, errSrc)
+		return t.decE(stmts[1:], effects, end, srcs)
 	}
 }
 
@@ -310,17 +405,35 @@ type decJob struct {
 	// the function is the subject of other obligations); "" = the whole function
 	stop  string
 	quiet bool
+	// lit: translate the body of the function literal that is called in place and assigned to this variable
+	lit string
 }
 
 var decJobs = []decJob{
-	{"pkg/builder/assignment.go", "assignmentBuilder", "castNode", "castNode", "", false},
-	{"pkg/builder/assignment.go", "assignmentBuilder", "sliceToSlice", "sliceToSlice", "", false},
-	{"pkg/builder/assignment.go", "assignmentBuilder", "matchStructFieldAndStruct", "matchStructFieldAndStruct", "", false},
-	{"pkg/builder/postprocess.go", "FunctionBuilder", "buildManipulator", "buildManipulator", "", true},
-	{"pkg/builder/method.go", "FunctionBuilder", "CreateFunction", "createFunctionChecks", "var assignments", true},
-	{"pkg/parser/comment.go", "Parser", "lookupConverterFunc", "lookupConverterFunc", "", false},
-	{"pkg/parser/comment.go", "Parser", "lookupManipulatorFunc", "lookupManipulatorFunc", "", true},
-	{"pkg/generator/generator.go", "Generator", "Generate", "generate", "", false},
+	{"pkg/builder/assignment.go", "assignmentBuilder", "castNode", "castNode", "", false, ""},
+	{"pkg/builder/assignment.go", "assignmentBuilder", "sliceToSlice", "sliceToSlice", "", false, ""},
+	{"pkg/builder/assignment.go", "assignmentBuilder", "matchStructFieldAndStruct", "matchStructFieldAndStruct", "", false, ""},
+	{"pkg/builder/postprocess.go", "FunctionBuilder", "buildManipulator", "buildManipulator", "", true, ""},
+	{"pkg/builder/method.go", "FunctionBuilder", "CreateFunction", "createFunctionChecks", "var assignments", true, ""},
+	{"pkg/parser/comment.go", "Parser", "lookupConverterFunc", "lookupConverterFunc", "", false, ""},
+	{"pkg/parser/comment.go", "Parser", "lookupManipulatorFunc", "lookupManipulatorFunc", "", true, ""},
+	{"pkg/generator/generator.go", "Generator", "Generate", "generate", "", false, ""},
+	{"pkg/builder/assignment.go", "assignmentBuilder", "createWithConverter", "converterNode", "", false, "converterNode"},
+	{"pkg/builder/assignment.go", "assignmentBuilder", "createWithConverter", "createWithConverter", "", false, ""},
+	{"pkg/builder/assignment.go", "assignmentBuilder", "createWithMapper", "mappedNode", "", false, "mappedNode"},
+	{"pkg/builder/assignment.go", "assignmentBuilder", "createWithMapper", "createWithMapper", "", false, ""},
+	{"pkg/builder/assignment.go", "assignmentBuilder", "createWithTemplatedMapper", "templatedNode", "", false, "mappedNode"},
+	{"pkg/builder/assignment.go", "assignmentBuilder", "createWithTemplatedMapper", "createWithTemplatedMapper", "", false, ""},
+	{"pkg/runner/runner.go", "", "Run", "run", "", false, ""},
+	{"pkg/config/config.go", "Config", "ParseArgs", "parseArgs", "", false, ""},
+	{"pkg/util/types.go", "", "ParseGetterReturnTypes", "parseGetterReturnTypes", "", false, ""},
+	{"pkg/util/types.go", "", "CompliesGetter", "compliesGetter", "", false, ""},
+	{"pkg/util/types.go", "", "CompliesStringer", "compliesStringer", "", false, ""},
+	{"pkg/option/option.go", "Options", "ShouldSkip", "shouldSkip", "", false, ""},
+	{"pkg/option/pattern_matcher.go", "PatternMatcher", "Match", "patternMatch", "", false, ""},
+	{"pkg/option/ident_matcher.go", "IdentMatcher", "Match", "identMatch", "", false, ""},
+	{"pkg/builder/assignment.go", "assignmentBuilder", "addressed", "addressed", "", false, ""},
+	{"pkg/builder/assignment.go", "assignmentBuilder", "isStructFieldAccessible", "isStructFieldAccessible", "", false, ""},
 }
 
 func genDecisions(repo string) string {
@@ -328,36 +441,74 @@ func genDecisions(repo string) string {
 	sb.WriteString("-- GENERATED by /verif/tools/cmd/extract (decision skeletons of hand-modelled functions) — do not edit\n")
 	sb.WriteString("namespace Convergen.Generated.Decisions\n\n")
 	for _, j := range decJobs {
-		f := parse(repo, j.file)
-		fd := findFunc(f, j.recv, j.fn)
-		stmts := fd.Body.List
-		end := ""
-		if j.stop != "" {
-			for i, s := range stmts {
-				if strings.HasPrefix(exprKey2(s), j.stop) {
-					stmts = stmts[:i]
-					end = "continue"
-					break
-				}
-			}
-			if end == "" {
-				failf(fd, "stop statement %q not found in %s", j.stop, j.fn)
-			}
+		// a function that leaves the supported subset gets a skeleton without conditions: only the Bridge
+		// theorem of that function stops compiling, not the whole translation
+		text, err := run(func(string) string { return genDecision(repo, j) }, repo)
+		if err != nil {
+			fmt.Fprintf(os.Stderr, "extract: decisions of %s.%s: %v\n", j.recv, j.fn, err)
+			text = fmt.Sprintf("/-- `%s.%s`: outside the supported subset: %s -/\ndef %s : String := \"untranslated\"\n\n",
+				j.recv, j.fn, strings.ReplaceAll(strings.ReplaceAll(err.Error(), "-/", "- /"), "`", "'"), j.name)
 		}
-		if fd.Type.Results != nil && len(fd.Type.Results.List) > 0 && len(fd.Type.Results.List[0].Names) > 0 && end == "" {
-			end = "return" // named results: falling off the end is impossible in Go, but a bare return may be last
-		}
-		t := &decTr{seen: map[string]bool{}, quiet: j.quiet}
-		body := t.dec(stmts, nil, end)
-		var params []string
-		sb.WriteString("/-- `" + j.recv + "." + j.fn + "`; conditions:\n")
-		for i, h := range t.holes {
-			fmt.Fprintf(&sb, "  c%d: `%s`\n", i, strings.ReplaceAll(h, "`", "'"))
-			params = append(params, fmt.Sprintf("c%d", i))
-		}
-		sb.WriteString("-/\n")
-		fmt.Fprintf(&sb, "def %s (%s : Bool) : String :=\n  %s\n\n", j.name, strings.Join(params, " "), body)
+		sb.WriteString(text)
 	}
 	sb.WriteString("end Convergen.Generated.Decisions\n")
+	return sb.String()
+}
+
+func genDecision(repo string, j decJob) string {
+	var sb strings.Builder
+	f := parse(repo, j.file)
+	fd := findFunc(f, j.recv, j.fn)
+	stmts := fd.Body.List
+	if j.lit != "" {
+		stmts = nil
+		for _, st := range fd.Body.List {
+			if as, ok := st.(*ast.AssignStmt); ok && len(as.Lhs) == 1 && len(as.Rhs) == 1 {
+				if id, ok := as.Lhs[0].(*ast.Ident); ok && id.Name == j.lit {
+					if c, ok := as.Rhs[0].(*ast.CallExpr); ok {
+						if fl, ok := c.Fun.(*ast.FuncLit); ok {
+							stmts = fl.Body.List
+						}
+					}
+				}
+			}
+		}
+		if stmts == nil {
+			failf(fd, "function literal %q not found in %s", j.lit, j.fn)
+		}
+	}
+	end := ""
+	if j.stop != "" {
+		for i, s := range stmts {
+			if strings.HasPrefix(exprKey2(s), j.stop) {
+				stmts = stmts[:i]
+				end = "continue"
+				break
+			}
+		}
+		if end == "" {
+			failf(fd, "stop statement %q not found in %s", j.stop, j.fn)
+		}
+	}
+	if fd.Type.Results != nil && len(fd.Type.Results.List) > 0 && len(fd.Type.Results.List[0].Names) > 0 && end == "" {
+		end = "return" // named results: falling off the end is impossible in Go, but a bare return may be last
+	}
+	longLabels, longLabelOrder = map[string]string{}, nil
+	t := &decTr{seen: map[string]bool{}, quiet: j.quiet, multi: multiAssigned(stmts)}
+	body := t.dec(stmts, nil, end)
+	var params []string
+	sb.WriteString("/-- `" + j.recv + "." + j.fn + "`; conditions:\n")
+	for i, h := range t.holes {
+		fmt.Fprintf(&sb, "  c%d: `%s`\n", i, strings.ReplaceAll(h, "`", "'"))
+		params = append(params, fmt.Sprintf("c%d", i))
+	}
+	if len(longLabelOrder) > 0 {
+		sb.WriteString("  shortened labels:\n")
+		for _, k := range longLabelOrder {
+			fmt.Fprintf(&sb, "  `%s` = `%s`\n", strings.ReplaceAll(k, "`", "'"), strings.ReplaceAll(longLabels[k], "`", "'"))
+		}
+	}
+	sb.WriteString("-/\n")
+	fmt.Fprintf(&sb, "def %s (%s : Bool) : String :=\n  %s\n\n", j.name, strings.Join(params, " "), body)
 	return sb.String()
 }
